@@ -243,7 +243,22 @@ def run(ctx, prop):
                 hist["arrays"] += any(f.get("count", 1) > 1 for f in st[s]["fields"])
             if len(samples) < 3:
                 samples.append({"struct": idl.render_node(st[structs[-1]]), "packed": packed(case, structs[-1])})
-    # ---- known finding: a struct the passes never verify is accepted although it needs padding
+    # ---- repaired defect (fix 7e13aff): a struct of an included file used only as a parameter
+    # type must be verified like the others; its former witness has to be refused now
+    import glob
+    import json
+    for fpath in sorted(glob.glob(os.path.join(C.VERIF, "corpus", "regress", "k06_*.json"))):
+        w = json.load(open(fpath))
+        with C.Scratch() as tmp:
+            root = os.path.join(tmp, "src")
+            idl.render_case(w, root)
+            rc, err = E.run_idlc(ctx, root, w["main"], w.get("incdirs", []), "c-skel", os.path.join(tmp, "o.h"))
+            ctx.bump("evaluations")
+            s = w["struct"]
+            if rc == 0 and natural(w, s) != packed(w, s):
+                oracle_fail.append({"case": w, "failures": [{"error": "a struct that needs padding (declared in an included file, used as a parameter type) was accepted and emitted",
+                                                             "natural": natural(w, s), "assumed": packed(w, s)}]})
+    # ---- known findings (none at present): witnesses
     for w in F.witness_cases(prop):
         with C.Scratch() as tmp:
             root = os.path.join(tmp, "src")
